@@ -211,29 +211,47 @@ def r083(ctx):
     bh = [e for e in body if e.kind == "call" and e.data["fterm"].op == "boundmethod" and e.data["fterm"].args[1].endswith(".best_h")]
     ctx.require(len(bh) == 1, "anchor vanished: best_h call in the loop")
     lam = arg(bh[0], 0)
-    theta = A.at(bh[0], "theta")
+    lagr = bh[0].data["fterm"].args[0]  # the Lagrangian object the loop works with
+    # theta: the loop-carried vector the multiplier is computed from (whatever it is called)
+    carried = [s for s in subterms(lam) if s.op == "loopvar"]
+    ctx.require(len({c.uid for c in carried}) == 1, "lambda_t does not depend on exactly one loop-carried vector")
+    theta = carried[0]
+    theta_name = theta.args[0]
     spec = A.spec("B * np.exp(theta) / (1 + np.exp(theta).sum())", {"B": B, "theta": theta, **np_})
     A.formula("R08.3", fq, bh[0].node, lam, spec, "lambda_t", construct="lambda_t formula")
+    ok0 = A.eq(theta.args[2], A.spec("pd.Series(0, L.constraints.index)", {"L": lagr, "pd": glob("pandas")}))
+    ctx.ob("R08.3", fq, bh[0].node, ok0, "theta starts at 0 on the constraint index", construct="theta initial value")
     # theta update
-    th = [e for e in body if e.kind == "store" and e.data.get("tkind") == "name" and e.data["name"] == "theta"]
+    th = [e for e in body if e.kind == "store" and e.data.get("tkind") == "name" and e.data["name"] == theta_name]
     ctx.floor("R08.3", "theta updates in the loop", len(th), 1)
+    gam_want = A.spec("L.gammas[IDX]", {"L": lagr, "IDX": mk("sub", bh[0].data["result"], const(1))})
     for e in th:
-        gam = A.at(e, "gamma")
-        spec = A.spec("theta + eta * (gamma - bound)", {"theta": theta, "eta": A.at(e, "eta"), "gamma": gam,
-                                                       "bound": A.at(e, "self.constraints.bound()")})
-        A.formula("R08.3", fq, e.node, e.data["value"], spec, "theta update", construct="theta update formula")
-        # gamma is the constraint violation of this iteration's best response
-        want = A.at(bh[0], "lagrangian.gammas[IDX]", {"IDX": mk("sub", bh[0].data["result"], const(1))})
-        ctx.ob("R08.3", fq, e.node, A.eq(gam, want), "gamma is the constraint vector of this iteration's best response",
-               construct="gamma source")
+        bound = A.at(e, "self.constraints.bound()")
+        # value = theta + eta * (gamma - bound): solve for eta
+        step = A.C._as_rat(A.C.canon(e.data["value"])) - A.C._as_rat(A.C.canon(theta))
+        slack = A.C._as_rat(A.C.canon(gam_want)) - A.C._as_rat(A.C.canon(bound))
+        from ..alg import Rat, rat_subst
+        cg, cb = A.C.canon(gam_want), A.C.canon(bound)
+        # step is linear in (gamma - bound): its value at gamma = 1, bound = 0 is the step size eta
+        eta = rat_subst(step, {cg: Rat.const(1), cb: Rat.const(0)})
+        atoms = eta.num.atoms() | eta.den.atoms()
+        okf = not step.num.is_zero() and step.equals(eta * slack) and not any(
+            a is cg or a is cb or a is A.C.canon(theta) for a in atoms)
+        ctx.ob("R08.3", fq, e.node, okf, "theta <- theta + eta * (gamma - bound) with gamma the constraint vector of this "
+               "iteration's best response and eta a step size independent of gamma / bound" if okf else
+               f"theta update is {A.show(e.data['value'], 200)}", construct="theta update formula")
         ok = dominates(bh[0], e) and len(e.loops) == 1
         ctx.ob("R08.3", fq, e.node, ok, "theta is updated once per iteration after the best response", construct="theta update placement")
     # Q_EG
     eg = [e for e in body if e.kind == "call" and e.data["fterm"].op == "boundmethod" and e.data["fterm"].args[1].endswith(".eval_gap")]
     ctx.require(len(eg) == 1, "anchor vanished: eval_gap call in the loop")
     Q = arg(eg[0], 0)
-    qs = A.at(eg[0], "Qsum")
-    A.formula("R08.3", fq, eg[0].node, Q, A.spec("Qsum / Qsum.sum()", {"Qsum": qs}), "Q_EG = Qsum / sum(Qsum)", construct="Q_EG formula")
+    cq = A.C._as_rat(A.C.canon(Q))
+    okq_ = False
+    for x in cq.num.atoms():
+        if A.eq(Q, A.spec("X / X.sum()", {"X": x})):
+            okq_ = True
+    ctx.ob("R08.3", fq, eg[0].node, okq_, "Q_EG = Qsum / sum(Qsum)", construct="Q_EG formula")
     lam_eg = arg(eg[0], 1)
     ok = lam_eg.op == "call" and lam_eg.args[0].op == "attr" and lam_eg.args[0].args[1] == "mean" and dict(lam_eg.args[2]).get("axis") is const(1)
     ctx.ob("R08.3", fq, eg[0].node, ok, "lambda_EG is the running mean of the multiplier vectors", construct="lambda_EG")
